@@ -100,3 +100,5 @@ def parseBool? (s : String) : Option Bool :=
 def renderBool (b : Bool) : String := if b then "1" else "0"
 
 end Dino
+
+instance : NatCast Float := ⟨Float.ofNat⟩
